@@ -768,6 +768,7 @@ func runEngineL(p *Prog, o *obls) {
 		if found == 0 {
 			o.undecided("L1", gs.typ, "-", "anchor unresolved: no gated method found")
 		}
+		l2StartsAtFirst(p, o, gs)
 		// wherever the pop bookkeeping ended up (a shared helper taking a closure, a helper taking the error): no method of
 		// the buffer's type modifies the queue on a branch on which an error is known non-nil
 		queueKey := gs.typ + "." + gs.queueField
@@ -1952,4 +1953,72 @@ func onlyWipedEnter(p *Prog, fk string) bool {
 		})
 	}
 	return ok && n > 0 && nWiped > 0
+}
+
+// l2StartsAtFirst (rule L2, accepting side): playback starts at the first packet buffered. Outside the pop functions,
+// a store that sets the playout head from a packet handed in (a value read out of a parameter, `packet.SequenceNumber`
+// — not the parameter itself, which is the explicit setter) is dominated by the fact that the queue is empty
+// (`queue.Length() == 0`, or a helper of the queue compared so): only the very first packet defines where playout
+// starts; a later, older packet that pulled the head back would make the first pop return it and every pop after
+// that wait for numbers that never arrive.
+func l2StartsAtFirst(p *Prog, o *obls, gs gateSpec) {
+	queueKey, headKey := gs.typ+"."+gs.queueField, gs.typ+"."+gs.headField
+	for _, fn := range p.Funcs {
+		if fn.Blocks == nil || fn.Signature.Recv() == nil || typeKey(deref(fn.Signature.Recv().Type())) != gs.typ || strings.HasPrefix(fn.Name(), gs.prefix) {
+			continue
+		}
+		var bad []string
+		n := 0
+		instrsOf(fn, func(in ssa.Instruction) {
+			st, ok := in.(*ssa.Store)
+			if !ok {
+				return
+			}
+			fa, ok := st.Addr.(*ssa.FieldAddr)
+			if !ok || fieldKeyAddr(fa) != headKey {
+				return
+			}
+			// read out of a parameter (other than the receiver)?
+			fromPacket := false
+			if ld, isLd := p.origin(st.Val).(*ssa.UnOp); isLd && ld.Op == token.MUL {
+				if par, isPar := p.origin(addrRoot(ld.X)).(*ssa.Parameter); isPar && par != fn.Params[0] {
+					fromPacket = true
+				}
+			}
+			if !fromPacket {
+				return
+			}
+			n++
+			empty := false
+			for _, f := range dominatingFactsInstr(st) {
+				bo, ok := normFact(f).cond.(*ssa.BinOp)
+				if !ok || !(bo.Op == token.EQL && f.truth || bo.Op == token.NEQ && !f.truth) {
+					continue
+				}
+				for _, pair := range [][2]ssa.Value{{bo.X, bo.Y}, {bo.Y, bo.X}} {
+					c, isCall := p.origin(pair[0]).(*ssa.Call)
+					if !isCall || !isConstInt(pair[1], 0) || len(c.Call.Args) == 0 {
+						continue
+					}
+					if u, isU := p.origin(c.Call.Args[0]).(*ssa.UnOp); isU && u.Op == token.MUL {
+						if qfa, isQ := u.X.(*ssa.FieldAddr); isQ && fieldKeyAddr(qfa) == queueKey {
+							empty = true
+						}
+					}
+				}
+			}
+			if !empty {
+				bad = append(bad, fmt.Sprintf("the playout head is set from the packet handed in at %s on a path where the queue is not known to be empty", p.instrPos(st)))
+			}
+		})
+		if n == 0 {
+			continue
+		}
+		key := funcKey(fn) + ":starts-at-first"
+		if len(bad) > 0 {
+			o.bad("L2", key, p.Pos(fn.Pos()), strings.Join(dedupe(bad), "; ")+": playback starts at the first packet buffered, and a later packet that moves the head back strands every pop behind a number that never arrives")
+		} else {
+			o.ok("L2", key, p.Pos(fn.Pos()), fmt.Sprintf("%d store(s) of a pushed packet's number to the playout head, each only while the queue is empty", n))
+		}
+	}
 }
